@@ -99,3 +99,5 @@ from pyvc.engine import V as _V
 for _n, _v in dict(UNSPECIFIED=0, SINGLE=1, DOUBLE=2, TRIPLE=3, QUADRUPLE=4, ONEANDAHALF=7).items():
     R.NAME_CONSTS[f"rc.BondType.{_n}"] = _V(BT, _z3.IntVal(_v))
 R.NAME_CONSTS["rc.BondStereo.STEREOANY"] = _V(Enum("BondStereo"), _z3.IntVal(1))
+
+ufunc("sysmass", [Ref("System")], REAL)     # System.system_mass as a function of the system object (value checked by the C12 driver)
